@@ -298,6 +298,11 @@ type iterHandler struct {
 }
 
 func (h *iterHandler) Next(env *object.Env) (object.PanObject, *object.PanErr) {
+	if err := verifEnter(); err != nil {
+		return nil, err
+	}
+	defer verifLeave()
+
 	// call `(iter).next`
 	nextRet := builtInCallProp(env, object.EmptyPanObjPtr(),
 		object.EmptyPanObjPtr(), h.iter, nextSym)
